@@ -74,6 +74,10 @@ func (x *Exec) call(s *State, in ssa.Instruction, c *ssa.CallCommon, result ssa.
 				if g, ok := u.X.(*ssa.Global); ok {
 					key = g.Pkg.Pkg.Path() + "." + g.Name()
 				}
+				// a captured variable / parameter holding a function (by reference)
+				if fv, ok := u.X.(*ssa.FreeVar); ok {
+					key = funcKey(x.fn) + "#" + fv.Name()
+				}
 				// a function-typed struct field: contract under <pkg>.<Struct>.<field>
 				if fa, ok := u.X.(*ssa.FieldAddr); ok {
 					if n, ok := fa.X.Type().Underlying().(*types.Pointer).Elem().(*types.Named); ok && n.Obj().Pkg() != nil {
@@ -580,14 +584,26 @@ func (x *Exec) appendOp(s *State, in ssa.Instruction, args []Value, result ssa.V
 		// we give the two facts that the code under contract relies on: the prefix is
 		// preserved at skolem indices and the appended single element sits at len(a).
 		srcA := s.read(s.heap, key, a.F[0].S)
-		for _, idx := range x.instKeys(s, sInt) {
-			s.assume(imp(and(app("<=", "0", idx), app("<", idx, a.F[2].S)),
-				eq(sel(na, idx), sel(srcA, app("+", a.F[1].S, idx)))))
+		{
+			// element-wise facts as engine-generated universals, instantiated at index terms
+			aoff, alen, boff := a.F[1].S, a.F[2].S, ""
+			srcB := ""
 			if !bIsStr {
-				srcB := s.read(s.heap, key, b.F[0].S)
-				s.assume(imp(and(app("<=", a.F[2].S, idx), app("<", idx, nl)),
-					eq(sel(na, idx), sel(srcB, app("+", b.F[1].S, app("-", idx, a.F[2].S))))))
+				srcB = s.read(s.heap, key, b.F[0].S)
+				boff = b.F[1].S
 			}
+			naC, nlC := na, nl
+			u := &universal{vars: []AnyVar{{"i", ""}}, types: []types.Type{types.Typ[types.Int]}, sorts: []string{sInt}, done: map[string]bool{}}
+			u.gen = func(st *State, chosen []string) string {
+				idx := chosen[0]
+				f := imp(and(app("<=", "0", idx), app("<", idx, alen)), eq(sel(naC, idx), sel(srcA, app("+", aoff, idx))))
+				if srcB != "" {
+					f = and(f, imp(and(app("<=", alen, idx), app("<", idx, nlC)), eq(sel(naC, idx), sel(srcB, app("+", boff, app("-", idx, alen))))))
+				}
+				return f
+			}
+			s.univ = append(s.univ, u)
+			s.instantiate(u)
 		}
 		if !bIsStr {
 			// single-element appends (the overwhelmingly common case): element at old len
